@@ -33,6 +33,7 @@ var c08Pool = []c08Op{
 	{"svc-errors", "{ v { a } }"},            // the service answers this one with GraphQL errors
 	{"transport-fault", "{ v { w { b } } }"}, // the call carrying this one fails at transport level
 	{"slow", "{ n1s { n2s { owner { phone } } } }"},
+	{"ambiguous", "query A { echo } query B { echo }"}, // valid document, rejected after validation (no operationName)
 }
 
 func c08Fault(q string) *a.Fault {
@@ -137,7 +138,7 @@ func c08Batches(maxLen int, pool []c08Op) [][]c08Op {
 func init() {
 	Specs["C08"] = &Spec{
 		ID: "C08",
-		Rule: "scenario = one client batch over a 10-operation pool (queries on either service, cross-service and 3-level queries, a mutation, introspection, an invalid operation, an operation whose service answers with errors, " +
+		Rule: "scenario = one client batch over an 11-operation pool (queries on either service, cross-service and 3-level queries, a mutation, introspection, an invalid operation, an ambiguous two-operation document, an operation whose service answers with errors, " +
 			"one whose downstream call fails at transport level); two granularities: operation-grained (scheduling choices between the goroutine subtrees of different operations, default order inside an operation: quick length<=2 at preemption bound 1 and length 3 at bound 0; " +
 			"thorough bound 2 / 1) and fine-grained (every goroutine, every visible operation: two two-operation batches at bound 1 (thorough: 5 batches at bound 1, one at bound 2)); state-cached; " +
 			"every schedule within the bound of the real Gateway.Handler (rewritten sources) is executed; oracle per execution: array of N results, result i == the answer operation i receives alone, no deadlock / fatal / leak; non-trivial = >1 execution",
